@@ -8,10 +8,10 @@ SPEC = os.path.join(vc.VERIF, "spec", "MultiRange")
 INV = "TypeOK MrCanonical MrUnionIsPts MrMeasure RsKeepsEvery"
 
 
-def _cfg(path, u, kinds, maxlen):
+def _cfg(path, u, kinds, maxlen, objs="{1, 2}"):
     with open(path, "w") as f:
-        f.write("SPECIFICATION Spec\nCONSTANTS\n  U = %d\n  Objs = {1, 2}\n  Kinds = {%s}\n  MaxLen = %d\n"
-                "CONSTRAINT Bound\nINVARIANTS %s\nPROPERTY CopyDeep\nCHECK_DEADLOCK FALSE\n" % (u, kinds, maxlen, INV))
+        f.write("SPECIFICATION Spec\nCONSTANTS\n  U = %d\n  Objs = %s\n  Kinds = {%s}\n  MaxLen = %d\n"
+                "CONSTRAINT Bound\nINVARIANTS %s\nPROPERTY CopyDeep\nCHECK_DEADLOCK FALSE\n" % (u, objs, kinds, maxlen, INV))
 
 
 def _sig(rj):
@@ -39,18 +39,21 @@ def run(tier, seed):
         ck.violation("RangePrims lemma fails: the primitives' comparisons do not agree with interval arithmetic\n" + r.out[-1500:], [r.out], tag="lemma")
     ck.add_model("RangeLemmas", r, "N=%d" % (8 if quick else 12))
     # 2. design models: every history inside the bound
-    for name, u, kinds, ml in (("mr", 5 if quick else 7, '"mr"', 3), ("rs", 3 if quick else 4, '"rs"', 2 if quick else 3)):
+    models = [("mr", 5 if quick else 6, '"mr"', 3, "{1, 2}"), ("rs", 3 if quick else 4, '"rs"', 2 if quick else 3, "{1, 2}")]
+    if not quick:
+        models.append(("mr-1obj", 10, '"mr"', 3, "{1}"))   # one object, larger universe (copies covered above)
+    for name, u, kinds, ml, objs in models:
         cfg = os.path.join(wd, "design_%s.cfg" % name)
-        _cfg(cfg, u, kinds, ml)
+        _cfg(cfg, u, kinds, ml, objs)
         r = vc.model_check(SPEC, "RangeColl", cfg, coverage=True, timeout=3000, heap="12g")
-        ck.add_model("RangeColl/" + name, r, "U=%d Objs={1,2} Kinds={%s} MaxLen=%d" % (u, kinds, ml))
+        ck.add_model("RangeColl/" + name, r, "U=%d Objs=%s Kinds={%s} MaxLen=%d" % (u, objs, kinds, ml))
         if r.invariant:
             ck.violation("design model RangeColl/%s violates %s" % (name, r.invariant), [r.out[-6000:]], tag="model")
     # 3. implementation traces
     exe = vc.build_driver("drv_range", link_lib=False)
     runs = [("random", ["--mode", "random", "--n", 150 if quick else 3000]),
-            ("bfs-int", ["--mode", "bfs", "--u", 5 if quick else 7, "--types", "int"]),
-            ("bfs-other", ["--mode", "bfs", "--u", 3 if quick else 5, "--types", "unsigned,double,double4"]),
+            ("bfs-int", ["--mode", "bfs", "--u", 5 if quick else 6, "--types", "int"]),
+            ("bfs-other", ["--mode", "bfs", "--u", 3 if quick else 4, "--types", "unsigned,double,double4"]),
             ("prims", ["--mode", "prims", "--u", 5 if quick else 7])]
     for name, args in runs:
         tr = os.path.join(wd, "trace-%s.ndjson" % name)
